@@ -110,6 +110,17 @@ func PathFrom(base VM, path string) VM {
 				rev = append(rev, "[]")
 				v = x.X
 				continue
+			case *ssa.Index:
+				rev = append(rev, "[]")
+				v = x.X
+				continue
+			case *ssa.Alloc:
+				if st := storesTo(x); len(st) == 1 && !hasPartialStores(x) {
+					if _, isParam := st[0].(*ssa.Parameter); !isParam {
+						v = st[0]
+						continue
+					}
+				}
 			}
 			return false
 		}
